@@ -3,6 +3,7 @@ import logging
 import os
 import pathlib
 import tempfile
+import zlib
 
 from mopidy.internal.models import StoredState
 
@@ -23,7 +24,7 @@ def load(path: pathlib.Path) -> StoredState | None:
     try:
         with gzip.open(str(path), "rb") as fp:
             return StoredState.model_validate_json(fp.read())
-    except (OSError, ValueError) as exc:
+    except (OSError, ValueError, EOFError, zlib.error) as exc:
         logger.warning(f"Loading JSON failed: {exc}")
         return None
 
